@@ -266,7 +266,7 @@ pub fn run(tier: Tier) -> i32 {
     #[allow(non_snake_case)]
     let INSTANTS: &[i64] = &instants;
     let mut run = Run::new("C06", tier, "exploration");
-    run.rule = "(i) every RFC 3339 offset -12:00..+14:00 in 15-minute steps x 12 instants x 0..9 fraction digits (+ Z / +00:00 / -00:00) through three constructors: rejected or exact instant; (i'') the leap second 23:59:60 UTC of 2015-06-30 and 2016-12-31 spelled at every half-hour offset, and as a value in every zone through both codecs; (i') 27 malformed texts and 14 zone names that name no zone: error or preserved instant, never a panic; (ii) every in-model zone x every offset transition 1980-2060 x {t-3601,t-1,t,t+1,t+3599} + a lattice, through parse_from_rfc3339_with_timezone (UTC and local spelling), the chrono conversions, timezone::make_date_time_with_tz (city and full name, instant given at three offsets), make_date_time, the C API constructor from UTC date + time + zone with its date/time/zone getters, and (iii) both codecs with 0/3/6/9 fraction digits; non-trivial = distinct (zone, instant, digits) / distinct text".into();
+    run.rule = "(i) every RFC 3339 offset -12:00..+14:00 in 15-minute steps x 12 instants x 0..9 fraction digits (+ Z / +00:00 / -00:00) through three constructors: rejected or exact instant; (i'') the leap second 23:59:60 UTC of 2015-06-30 and 2016-12-31 spelled at every half-hour offset, and as a value in every zone through both codecs; (i-z) ~1500 zoned texts (Zinc, Hayson, text + zone) whose wall clock lies in or next to the skipped / repeated hour of 18 zones, with the offset before, after, and offsets the zone never has: never a panic; when the offset is the zone's offset at that instant, the instant of the RFC 3339 part (or an error); (i') 27 malformed texts and 14 zone names that name no zone: error or preserved instant, never a panic; (ii) every in-model zone x every offset transition 1980-2060 x {t-3601,t-1,t,t+1,t+3599} + a lattice, through parse_from_rfc3339_with_timezone (UTC and local spelling), the chrono conversions, timezone::make_date_time_with_tz (city and full name, instant given at three offsets), make_date_time, the C API constructor from UTC date + time + zone with its date/time/zone getters, and (iii) both codecs with 0/3/6/9 fraction digits; (v) the 18 zones of the scalar alphabet beyond that range: every offset transition 1900-2100, a yearly lattice to 2200, years 1 / 1000 / 9999, instants just before 1970 (whole-minute offsets only); non-trivial = distinct (zone, instant, digits) / distinct text".into();
     run.assume("chrono_tz offsets are the reference for each zone's local offset (trusted base)");
     run.assume("in-model zone = city name (text after the first '/') designates no zone with different rules under exact or region-prefixed resolution");
     crate::engine::quiet_panics();
@@ -363,6 +363,49 @@ pub fn run(tier: Tier) -> i32 {
         }
     }
 
+    // (i-z) zoned texts whose wall clock is in the skipped / repeated hour, with agreeing and
+    // disagreeing offsets: rejected, or the instant of the RFC 3339 part, never a panic
+    for (text, city, secs) in transition_texts() {
+        run.stats.evals += 1;
+        run.stats.count("transition-texts");
+        let z = format!("{text} {city}");
+        let j = format!("{{\"_kind\":\"dateTime\",\"val\":\"{text}\",\"tz\":\"{city}\"}}");
+        let results: Vec<(&str, Result<Result<DT, String>, String>)> = vec![
+            ("zinc", guarded(|| match libhaystack::encoding::zinc::decode::from_str(&z) {
+                Ok(Value::DateTime(d)) => Ok(dt_from_lib(&d)),
+                Ok(other) => Err(format!("{other:?}")),
+                Err(e) => Err(e.to_string()),
+            })),
+            ("hayson", guarded(|| match serde_json::from_str::<Value>(&j) {
+                Ok(Value::DateTime(d)) => Ok(dt_from_lib(&d)),
+                Ok(other) => Err(format!("{other:?}")),
+                Err(e) => Err(e.to_string()),
+            })),
+            ("with-timezone", guarded(|| DateTime::parse_from_rfc3339_with_timezone(&text, &city).map(|d| dt_from_lib(&d)))),
+        ];
+        for (name, r) in results {
+            match r {
+                Err(p) => run.stats.fail(&format!("zoned-text-panic:{name}"), json!({"zoned_text": text, "city": city}), format!("{z:?}: {p}")),
+                Ok(Err(_)) => run.stats.outcome("rejected"),
+                Ok(Ok(got)) => {
+                    // a text whose offset is not the zone's offset at that instant denotes no
+                    // value (no writer can produce it): only totality is demanded of it
+                    let full = crate::model::universe::ZONES.iter().find(|z| city_of(z) == city).copied().unwrap_or("UTC");
+                    let agrees = rfc3339_instant(&text).map_or(false, |x| offset_at(&full.parse::<Tz>().unwrap(), secs) == x.2);
+                    if !agrees {
+                        run.stats.outcome("accepted-inconsistent-offset");
+                        if got.secs != secs {
+                            run.stats.count("inconsistent-offset-texts-read-at-another-instant");
+                        }
+                    } else if got.secs != secs {
+                        run.stats.fail(&format!("zoned-text-instant:{name}"), json!({"zoned_text": text, "city": city}), format!("{z:?} denotes {secs}s, library gives {}s (offset {})", got.secs, got.offset));
+                    }
+                    run.stats.outcome("ok");
+                }
+            }
+        }
+    }
+
     // (ii) + (iii)
     let all = in_model_zones();
     run.note("in_model_zones", json!(all.len()));
@@ -439,6 +482,106 @@ pub fn run(tier: Tier) -> i32 {
         }
     });
     run.absorb(l);
+    // (v) beyond 1980-2060, for the zones of the scalar alphabet (their city names are unambiguous
+    // at all times): every offset transition 1900-2100 (t-1, t, t+1), a yearly lattice 1900-2200,
+    // years 1, 1000, 9999; instants whose local offset has seconds are skipped (RFC 3339 cannot
+    // spell them; recorded under C11)
+    {
+        let zs: Vec<&str> = crate::model::universe::ZONES.to_vec();
+        let l = par_for(zs.len(), |zi, local| {
+            let zone = zs[zi];
+            let tz: Tz = zone.parse().unwrap();
+            let (lo, hi) = (-2_208_988_800i64, 4_102_444_800i64); // 1900-01-01 .. 2100-01-01
+            let mut instants: Vec<i64> = vec![];
+            let mut t = lo;
+            let mut cur = offset_at(&tz, t);
+            while t < hi {
+                let n = (t + 86400).min(hi);
+                if offset_at(&tz, n) != cur {
+                    let (mut a, mut b) = (t, n);
+                    while b - a > 1 {
+                        let m = a + (b - a) / 2;
+                        if offset_at(&tz, m) == cur {
+                            a = m;
+                        } else {
+                            b = m;
+                        }
+                    }
+                    instants.extend([b - 1, b, b + 1]);
+                    cur = offset_at(&tz, n);
+                }
+                t = n;
+            }
+            let mut y = lo;
+            while y < 7_258_118_400 {
+                instants.push(y + 86_399);
+                y += 31_556_952;
+            }
+            instants.extend([-62_135_596_800 + 86_400, -30_610_224_000, 253_402_300_799 - 86_400 * 2, -1, -86_401, 1]);
+            if tier == Tier::Quick {
+                instants = instants.into_iter().step_by(5).collect();
+            }
+            for t in instants {
+                if offset_at(&tz, t) % 60 != 0 {
+                    local.count("wide-range-skipped-seconds-offset");
+                    continue;
+                }
+                for digits in [0usize, 3, 9] {
+                    run_zoned(zone, t, digits, local);
+                    local.count("wide-range-instants");
+                }
+            }
+        });
+        run.absorb(l);
+        run.require(run.counter("wide-range-instants") > 1000, "wide range pass too small");
+    }
+    // (vi) history independence: decoding a timestamp after a timestamp in another zone or DST
+    // state (all ordered pairs of 18 zones x 6 instants, Zinc, Hayson, text + zone constructor)
+    {
+        let mut pool: Vec<(String, i64)> = vec![];
+        for z in crate::model::universe::ZONES {
+            for t in [1_610_000_000i64, 1_625_097_600, 1_636_264_800 - 1, 1_636_264_800, 1_615_705_200 - 1, 951_782_400] {
+                pool.push((z.to_string(), t));
+            }
+        }
+        let op = |x: &(String, i64)| -> String {
+            let v = V::dt(x.1, 123_000_000, &x.0);
+            let z = crate::model::zinc_ref::write_canonical(&v);
+            let a = libhaystack::encoding::zinc::decode::from_str(&z).map(|b| format!("{:?}", crate::model::v::from_lib(&b))).map_err(|e| e.to_string());
+            let (j, _) = crate::model::hayson_ref::write(&v, &mut crate::engine::choice::Chooser::replaying(vec![]));
+            let b = serde_json::from_str::<Value>(&j).map(|b| format!("{:?}", crate::model::v::from_lib(&b))).map_err(|e| e.to_string());
+            let c = DateTime::parse_from_rfc3339_with_timezone(&rfc3339_text(x.1, 0, 0, 0, "Z"), &city_of(&x.0)).map(|d| format!("{:?}", dt_from_lib(&d)));
+            let lv = crate::model::v::to_lib(&v);
+            let d = libhaystack::encoding::zinc::encode::to_zinc_string(&lv).map_err(|e| e.to_string());
+            let e = serde_json::to_string(&lv).map_err(|e| e.to_string());
+            format!("{a:?}|{b:?}|{c:?}|{d:?}|{e:?}")
+        };
+        let l = super::common::history_pairs("timestamps", &pool, &op, &|x: &(String, i64)| json!({"zone": x.0, "secs": x.1}));
+        run.absorb(l);
+    }
+    // (vii) several timestamps in ONE document: for every zone of the alphabet every ordered pair of
+    // 6 instants (both sides of both 2021 transitions) in a list and in two rows of a grid, through
+    // both codecs (reference writer text in, and library text out and in)
+    {
+        let zs: Vec<&str> = crate::model::universe::ZONES.to_vec();
+        let ts = [1_610_000_000i64, 1_625_097_600, 1_636_264_800 - 1, 1_636_264_800, 1_615_705_200 - 1, 1_615_705_200];
+        let l = par_for(zs.len() * zs.len(), |k, local| {
+            let (z1, z2) = (zs[k / zs.len()], zs[k % zs.len()]);
+            for &t1 in &ts {
+                for &t2 in &ts {
+                    if z1 != z2 && (t1 != ts[0] || t2 != ts[1]) {
+                        continue; // different zones: one pair of instants
+                    }
+                    local.eval();
+                    local.count("timestamp-pair-documents");
+                    if let Err((stage, d)) = two_timestamps(z1, t1, z2, t2) {
+                        local.fail(&format!("{stage}:two-timestamps-in-one-document"), json!({"two_timestamps": [z1, t1, z2, t2]}), d.chars().take(700).collect());
+                    }
+                }
+            }
+        });
+        run.absorb(l);
+    }
     run.require(run.counter("rfc3339-texts") > 10_000, "too few RFC 3339 texts");
     run.require(all.len() >= 500, "fewer than 500 zones in the model");
     run.require(run.counter("zones-with-repeated-hour") > 10 && run.counter("zones-with-skipped-hour") > 10, "no DST transitions explored");
@@ -451,7 +594,61 @@ pub fn run(tier: Tier) -> i32 {
     run.finish(&replay)
 }
 
+/// two timestamps in one document (a list and two rows of a grid) through both codecs and from the
+/// reference writer's text
+fn two_timestamps(z1: &str, t1: i64, z2: &str, t2: i64) -> Verdict {
+    let (a, b) = (V::dt(t1, 0, z1), V::dt(t2, 500_000_000, z2));
+    let doc = V::List(vec![
+        a.clone(),
+        b.clone(),
+        V::Grid(Box::new(crate::model::v::G {
+            ver: "3.0".into(),
+            meta: None,
+            cols: vec![crate::model::v::Col { name: "ts".into(), meta: None }, crate::model::v::Col { name: "v".into(), meta: None }],
+            rows: vec![crate::model::v::mk_tags(&[("ts", a.clone()), ("v", V::num(1.0))]), crate::model::v::mk_tags(&[("ts", b.clone()), ("v", V::num(2.0))])],
+        })),
+    ]);
+    super::c01::zinc_roundtrip(&doc).map_err(|(s, d)| (format!("zinc:{s}"), d))?;
+    super::c02::hayson_roundtrip(&doc).map_err(|(s, d)| (format!("hayson:{s}"), d))?;
+    let text = crate::model::zinc_ref::write_canonical(&doc);
+    match guarded(|| libhaystack::encoding::zinc::decode::from_str(&text)) {
+        Ok(Ok(back)) => crate::model::v::same(&doc, &crate::model::v::from_lib(&back)).map_err(|d| ("zinc:reference-text".to_string(), format!("{d}; text={text:?}"))),
+        Ok(Err(e)) => Err(("zinc:reference-text-rejected".to_string(), format!("{e}; text={text:?}"))),
+        Err(p) => Err(("zinc:reference-text-panic".to_string(), p)),
+    }
+}
+
+/// the offset of a zoned text is the zone's offset at the instant the text denotes
+fn consistent(text: &str, city: &str) -> bool {
+    let full = crate::model::universe::ZONES.iter().find(|z| city_of(z) == city).copied().unwrap_or("UTC");
+    rfc3339_instant(text).map_or(false, |x| offset_at(&full.parse::<Tz>().unwrap(), x.0) == x.2)
+}
+
 pub fn replay(case: &J) -> Verdict {
+    if let Some(a) = case["two_timestamps"].as_array() {
+        let (z1, t1, z2, t2) = (a[0].as_str().unwrap_or("UTC"), a[1].as_i64().unwrap_or(0), a[2].as_str().unwrap_or("UTC"), a[3].as_i64().unwrap_or(0));
+        return two_timestamps(z1, t1, z2, t2).map_err(|(s, d)| (format!("{s}:two-timestamps-in-one-document"), d));
+    }
+    if case["history_pair"].is_string() {
+        // replayed by the whole check (the pair is only meaningful within its pool)
+        return Err(("history-changes-output:timestamps".into(), "re-run ./check C06 quick".into()));
+    }
+    if let (Some(text), Some(city)) = (case["zoned_text"].as_str(), case["city"].as_str()) {
+        let want = rfc3339_instant(text).map(|x| x.0);
+        let z = format!("{text} {city}");
+        return match guarded(|| libhaystack::encoding::zinc::decode::from_str(&z).ok().and_then(|v| match v { Value::DateTime(d) => Some(dt_from_lib(&d).secs), _ => None })) {
+            Err(p) => Err(("zoned-text-panic:zinc".into(), p)),
+            Ok(Some(s)) if Some(s) != want && consistent(text, city) => Err(("zoned-text-instant:zinc".into(), format!("{s} vs {want:?}"))),
+            _ => {
+                let j = format!("{{\"_kind\":\"dateTime\",\"val\":\"{text}\",\"tz\":\"{city}\"}}");
+                match guarded(|| serde_json::from_str::<Value>(&j).ok().and_then(|v| match v { Value::DateTime(d) => Some(dt_from_lib(&d).secs), _ => None })) {
+                    Err(p) => Err(("zoned-text-panic:hayson".into(), p)),
+                    Ok(Some(s)) if Some(s) != want && consistent(text, city) => Err(("zoned-text-instant:hayson".into(), format!("{s} vs {want:?}"))),
+                    _ => Ok(()),
+                }
+            }
+        };
+    }
     if let Some(t) = case["malformed"].as_str() {
         return match guarded(|| {
             let _ = DateTime::parse_from_rfc3339(t);
